@@ -83,17 +83,7 @@ impl<Context: ServerContext> HttpRouter<Context> {
         ensures r == route_of(*self, *method, input_path_text(path), match version { Some(v) => Some(*v), None => None }) { unimplemented!() }
 }
 
-/// `?` on a Result<_, HttpError> inside a function returning Result<_, HandlerError>:
-/// `impl<E: HttpResponseError> From<E> for HandlerError` with E = HttpError takes the `Err(e) => Self::Dropshot(e)`
-/// arm, because `HttpResponseContent for HttpError::to_response` returns `Err(self)` (handler.rs)
-impl From<HttpError> for HandlerError {
-    #[verifier::external_body]
-    fn from(e: HttpError) -> (r: HandlerError) ensures r == HandlerError::Dropshot(e) { unimplemented!() }
-}
-impl vstd::std_specs::convert::FromSpecImpl<HttpError> for HandlerError {
-    open spec fn obeys_from_spec() -> bool { true }
-    open spec fn from_spec(e: HttpError) -> Self { HandlerError::Dropshot(e) }
-}
+//@ include ../_common/prelude_handler_error.rs
 
 /// W10 stand-in for the excised `match server.config.default_handler_task_mode { .. }`.
 /// Its PRECONDITION is the obligation "whenever a handler is invoked, ...": it is proved at the single call
